@@ -13,3 +13,4 @@ INVARIANT Paired
 INVARIANT CompletionMatchesOutcome
 INVARIANT ConfigOrder
 INVARIANT CountsEqualOnExit
+INVARIANT CountingCore
